@@ -60,6 +60,9 @@ def main():
                 res.append(run_check(pid, evdir, tier))
         finally:
             subprocess.run(['git', '-C', REPO, 'checkout', '--', '.'], check=True)
+            # the generated rule table follows lexer.l: bring it back to the unchanged source
+            subprocess.run([sys.executable, os.path.join(VERIF, 'tools', 'lex2coq.py'), os.path.join(REPO, 'src', 'lexer.l'),
+                            os.path.join(REPO, 'src', 'confuse.h'), os.path.join(VERIF, 'coq')], stdout=subprocess.DEVNULL)
             # keep the replay files of the detecting run next to the seeded change
             rp = os.path.join(evdir, 'replays')
             if os.path.isdir(rp):
